@@ -16,11 +16,13 @@ import (
 	"time"
 
 	"github.com/arloliu/go-secs/v2/hsms"
+	"github.com/arloliu/go-secs/v2/secs1"
 	"github.com/arloliu/go-secs/v2/secs2"
 	"pgregory.net/rapid"
 	"verif/harness/ev"
 	"verif/harness/netsim"
 	"verif/harness/ref/e37"
+	"verif/harness/ref/e4"
 	"verif/harness/vt"
 )
 
@@ -60,23 +62,104 @@ type c10Done struct {
 	finished time.Time
 }
 
+// lifeW is the transport-independent view of a library connection that the lifecycle check needs.
+type lifeW struct {
+	nw       *netsim.Net
+	addr     string
+	active   bool
+	secs1    bool
+	equip    bool
+	conn     hsms.Connection
+	ln       *netsim.Listener
+	leakedFn func() []string
+}
+
+func (w *lifeW) leaked() []string { return w.leakedFn() }
+
+func (w *lifeW) listen() error {
+	l, err := w.nw.Listen(w.addr)
+	if err != nil {
+		return err
+	}
+	w.ln = l
+	return nil
+}
+
+// c10Serve plays the cooperative side of one established link until the library ends it or stop closes.
+func c10Serve(w *lifeW, c *netsim.Conn, behaviour string, round int, stop <-chan struct{}) {
+	if w.secs1 {
+		// a live line IS the session; the reference line peer grants and acknowledges whatever is sent
+		ep := &e4.Peer{C: c, IsMaster: !w.equip, T1: 40 * time.Millisecond, T2: 100 * time.Millisecond}
+		deadline := time.Now().Add(time.Hour)
+		switch behaviour {
+		case "drop":
+			deadline = time.Now().Add(40 * time.Millisecond)
+		case "flap":
+			deadline = time.Now().Add(8 * time.Millisecond)
+		}
+		for time.Now().Before(deadline) {
+			select {
+			case <-stop:
+				_ = c.Close()
+				return
+			default:
+			}
+			if behaviour == "silent" {
+				time.Sleep(5 * time.Millisecond)
+				b := make([]byte, 64)
+				_ = c.SetReadDeadline(time.Now().Add(5 * time.Millisecond))
+				if _, err := c.Read(b); err != nil && !strings.Contains(err.Error(), "timeout") {
+					break
+				}
+				continue
+			}
+			if _, _, err := ep.ServeOne(10 * time.Millisecond); err != nil {
+				break
+			}
+		}
+		_ = c.Close()
+		return
+	}
+	p := netsim.NewPeer(c)
+	if !w.active && behaviour != "silent" {
+		_ = p.Send(e37.Control(e37.SelectReq, 0xffff, 0, 0, 0x51000000+uint32(round)))
+	}
+	p.SetAuto(true, behaviour != "silent")
+	if behaviour != "silent" {
+		p.SetOnFrame(func(f e37.Frame) {
+			if f.IsData() && f.WBit() {
+				_ = p.Send(e37.DataFrame(f.Session, f.Stream(), f.Function()+1, false, f.Sys, nil))
+			}
+		})
+	}
+	switch behaviour {
+	case "drop", "flap":
+		d := 40 * time.Millisecond
+		if behaviour == "flap" {
+			d = 8 * time.Millisecond
+		}
+		select {
+		case <-time.After(d):
+		case <-stop:
+		}
+	default:
+		done := make(chan struct{})
+		go func() { p.WaitEOF(time.Hour); close(done) }()
+		select {
+		case <-done:
+		case <-stop:
+		}
+	}
+	p.Close()
+}
+
 // c10Peer plays the drawn peer behaviour until stop is closed.
-func c10Peer(w *world, behaviour string, at time.Duration, stop <-chan struct{}, wg *sync.WaitGroup) {
+func c10Peer(w *lifeW, behaviour string, at time.Duration, stop <-chan struct{}, wg *sync.WaitGroup) {
 	defer wg.Done()
 	select {
 	case <-time.After(at):
 	case <-stop:
 		return
-	}
-	serve := func(p *netsim.Peer) {
-		p.SetAuto(true, behaviour != "silent")
-		if behaviour != "silent" {
-			p.SetOnFrame(func(f e37.Frame) {
-				if f.IsData() && f.WBit() {
-					_ = p.Send(e37.DataFrame(f.Session, f.Stream(), f.Function()+1, false, f.Sys, nil))
-				}
-			})
-		}
 	}
 	for round := 0; round < 50; round++ {
 		select {
@@ -84,7 +167,7 @@ func c10Peer(w *world, behaviour string, at time.Duration, stop <-chan struct{},
 			return
 		default:
 		}
-		var p *netsim.Peer
+		var conn *netsim.Conn
 		if w.active {
 			if behaviour == "absent" {
 				<-stop
@@ -115,7 +198,7 @@ func c10Peer(w *world, behaviour string, at time.Duration, stop <-chan struct{},
 				if r.err != nil {
 					continue
 				}
-				p = netsim.NewPeer(r.c)
+				conn = r.c
 			case <-stop:
 				_ = ln.Close()
 				<-ch
@@ -135,49 +218,43 @@ func c10Peer(w *world, behaviour string, at time.Duration, stop <-chan struct{},
 				}
 				continue
 			}
-			p = netsim.NewPeer(c)
-			if behaviour != "silent" {
-				_ = p.Send(e37.Control(e37.SelectReq, 0xffff, 0, 0, 0x51000000+uint32(round)))
-			}
+			conn = c
 		}
-		serve(p)
-		switch behaviour {
-		case "drop", "flap":
-			d := 40 * time.Millisecond
-			if behaviour == "flap" {
-				d = 8 * time.Millisecond
-			}
-			select {
-			case <-time.After(d):
-			case <-stop:
-			}
-			p.Close()
-		default:
-			// stay until the library ends the connection or the cycle is over
-			done := make(chan struct{})
-			go func() { p.WaitEOF(time.Hour); close(done) }()
-			select {
-			case <-done:
-			case <-stop:
-			}
-			p.Close()
-		}
+		c10Serve(w, conn, behaviour, round, stop)
 	}
 }
 
 func TestC10Lifecycle(t *testing.T) {
-	ev.Rule("1-3 open/close cycles; in each, 1-5 goroutines run 1-3 API calls each (Open blocking with a 250 ms ctx / Open background / Close / reply-expected send with a 150 ms ctx / async send / UpdateConfigOptions valid and invalid / State / Metrics) at drawn offsets 0-60 ms against a peer that is absent, selects, stays silent, drops after 40 ms, or flaps every 8 ms (both roles; real time, timers of tens of ms); oracle: no panic; every call returns within 4 s; then sequentially: Close returns within closeTimeout + 3 s, a second Close returns the same result within 200 ms, State() is NotConnected, no goroutine runs library code after a 2 s grace, every socket and listener handed to the library is closed, no dial/listen happens for 3xT5; a re-Open against a cooperative peer reaches Selected, a second Open returns ErrAlreadyOpen and changes nothing, a round trip works; non-trivial = two API calls of different goroutines overlapped in time (intervals widened by 1 ms)")
+	ev.Rule("1-3 open/close cycles; in each, 1-5 goroutines run 1-3 API calls each (Open blocking with a 250 ms ctx / Open background / Close / reply-expected send with a 150 ms ctx / async send / UpdateConfigOptions valid and invalid / State / Metrics) at drawn offsets 0-60 ms against a peer that is absent, cooperative, silent, drops after 40 ms, or flaps every 8 ms (HSMS-SS and SECS-I, both roles; real time, timers of tens of ms); oracle: no panic; every call returns within 4 s; then sequentially: Close returns within closeTimeout + 3 s, a second Close returns the same result within 200 ms, State() is NotConnected, no goroutine runs library code after a 2 s grace, every socket and listener handed to the library is closed, no dial/listen happens for 3xT5; a re-Open against a cooperative peer reaches Selected, a second Open returns ErrAlreadyOpen and changes nothing, a round trip works; non-trivial = two API calls of different goroutines overlapped in time (intervals widened by 1 ms)")
 	vt.Check(t, 160, 4000, func(rt *rapid.T) { runC10(rt) })
 }
 
 func runC10(rt *rapid.T) {
 	active := rapid.Bool().Draw(rt, "active")
+	useSecs1 := rapid.IntRange(0, 2).Draw(rt, "transport") == 0
+	equip := rapid.Bool().Draw(rt, "equip")
 	lt := time.Duration(rapid.SampledFrom([]int{0, 50}).Draw(rt, "linktestMs")) * time.Millisecond
-	w, err := newWorld(worldOpt{active: active, noListen: true, connOpts: []hsms.ConnOption{hsms.WithT3(300 * time.Millisecond), hsms.WithT5(40 * time.Millisecond),
-		hsms.WithT6(150 * time.Millisecond), hsms.WithT7(200 * time.Millisecond), hsms.WithT8(150 * time.Millisecond), hsms.WithCloseTimeout(c10CloseTimeout),
-		hsms.WithReconnectBackoff(10*time.Millisecond, 2), hsms.WithWriteTimeout(300 * time.Millisecond), hsms.WithLinktestInterval(lt)}})
-	if err != nil {
-		rt.Fatalf("VERIF-INFRA: %v", err)
+	core := []hsms.ConnOption{hsms.WithT3(300 * time.Millisecond), hsms.WithT5(40 * time.Millisecond), hsms.WithCloseTimeout(c10CloseTimeout), hsms.WithReconnectBackoff(10*time.Millisecond, 2)}
+	var w *lifeW
+	if useSecs1 {
+		lt = 0
+		var so []secs1.Option
+		for _, o := range core {
+			so = append(so, secs1.WithConnectionOption(o))
+		}
+		so = append(so, secs1.WithT1(40*time.Millisecond), secs1.WithT2(100*time.Millisecond), secs1.WithT4(200*time.Millisecond), secs1.WithRetryLimit(1))
+		b, err := newS1World(s1Opt{active: active, equip: equip, device: 3, noListen: true, opts: so})
+		if err != nil {
+			rt.Fatalf("VERIF-INFRA: %v", err)
+		}
+		w = &lifeW{nw: b.nw, addr: b.addr, active: active, secs1: true, equip: equip, conn: b.conn, leakedFn: b.leaked}
+	} else {
+		b, err := newWorld(worldOpt{active: active, equip: equip, noListen: true, connOpts: append(core, hsms.WithT6(150*time.Millisecond), hsms.WithT7(200*time.Millisecond),
+			hsms.WithT8(150*time.Millisecond), hsms.WithWriteTimeout(300*time.Millisecond), hsms.WithLinktestInterval(lt))})
+		if err != nil {
+			rt.Fatalf("VERIF-INFRA: %v", err)
+		}
+		w = &lifeW{nw: b.nw, addr: b.addr, active: active, equip: equip, conn: b.conn, leakedFn: b.leaked}
 	}
 	w.conn.AddDataMessageHandler(func(m *hsms.DataMessage, ep hsms.SECS2Endpoint) {})
 	w.conn.AddConnStateChangeHandler(func(prev, next hsms.ConnState) {})
@@ -201,7 +278,7 @@ func runC10(rt *rapid.T) {
 		hmu.Lock()
 		h := strings.Join(hist, "\n  ")
 		hmu.Unlock()
-		rt.Fatalf("C10 violated (active=%v linktest=%v): %s\nhistory:\n  %s", active, lt, fmt.Sprintf(f, a...), h)
+		rt.Fatalf("C10 violated (secs1=%v active=%v linktest=%v): %s\nhistory:\n  %s", useSecs1, active, lt, fmt.Sprintf(f, a...), h)
 	}
 	t0 := time.Now()
 	logf := func(f string, a ...any) {
@@ -400,11 +477,20 @@ func runC10(rt *rapid.T) {
 				fail("State()=%v after the refused second Open (was Selected)", got)
 			}
 			c2, cancel2 := ctxT(2 * time.Second)
-			rep, serr := w.conn.SendDataMessage(c2, 1, 1, true, secs2.A("again"))
-			cancel2()
-			if serr != nil || rep == nil || rep.Function() != 2 {
-				fail("round trip on the reopened connection failed: %v", serr)
+			if useSecs1 {
+				// the reference line peer grants and acknowledges the blocks: the send must succeed
+				if _, serr := w.conn.SendDataMessage(c2, 1, 1, false, secs2.A("again")); serr != nil {
+					cancel2()
+					fail("a send on the reopened SECS-I connection failed: %v", serr)
+				}
+			} else {
+				rep, serr := w.conn.SendDataMessage(c2, 1, 1, true, secs2.A("again"))
+				if serr != nil || rep == nil || rep.Function() != 2 {
+					cancel2()
+					fail("round trip on the reopened connection failed: %v", serr)
+				}
 			}
+			cancel2()
 			logf("reopened, round trip ok")
 			// a refused Open must have NO side effects - in particular it must not cancel a reconnect
 			// that is pending after an involuntary drop
@@ -444,7 +530,11 @@ func runC10(rt *rapid.T) {
 	if active {
 		role = "active"
 	}
-	cls = append(cls, "c10:role:"+role, fmt.Sprintf("c10:cycles:%d", cycles))
+	tr := "hsmsss"
+	if useSecs1 {
+		tr = "secs1"
+	}
+	cls = append(cls, "c10:role:"+role, fmt.Sprintf("c10:cycles:%d", cycles), "c10:transport:"+tr)
 	hmu.Lock()
 	h := append([]string(nil), hist...)
 	hmu.Unlock()
